@@ -53,11 +53,12 @@ Fixpoint zipadd (a b : list Q) : list Q :=
   | _, _ => []
   end.
 
-(** [acc += v] in place: equal lengths add pointwise; a length-1 operand is broadcast; anything else
-    is numpy's "operands could not be broadcast together" / "non-broadcastable output". *)
-Definition np_iadd (acc v : list Q) : res (list Q) :=
-  if Nat.eqb (length v) (length acc) then Ok (zipadd acc v)
-  else if Nat.eqb (length v) 1 then Ok (map (fun a => a + hd 0 v) acc)
+(** [value + v] (a new array, NOT in place): equal lengths add pointwise; a length-1 operand on
+    either side is broadcast; anything else is numpy's "operands could not be broadcast together". *)
+Definition np_add (a b : list Q) : res (list Q) :=
+  if Nat.eqb (length a) (length b) then Ok (zipadd a b)
+  else if Nat.eqb (length b) 1 then Ok (map (fun x => x + hd 0 b) a)
+  else if Nat.eqb (length a) 1 then Ok (map (fun x => hd 0 a + x) b)
   else Raise EShape.
 
 Fixpoint dotl (a b : list Q) : Q :=
@@ -75,23 +76,34 @@ Definition leafP (st : est) (i : nat) : res (list Q) :=
 Definition leafE (st : est) (i : nat) : res Q :=
   match nth_error (lev st) i with Some (Some q) => Ok q | _ => Raise EUnsolved end.
 
-(** ** Point.eval on a derived point:
-    [value = np.zeros(Point.counter); for point, weight in dict.items(): value += weight * point.eval()].
-    [m] is the length of the zero vector; the code uses the CURRENT class counter. *)
-Fixpoint point_sum (st : est) (acc : list Q) (d : pdict) : res (list Q) :=
+(** ** Point.eval on a derived point (point.py 294-300, after the repair e997f00):
+      value = 0
+      for point, weight in dict.items(): value = value + weight * point.eval()
+      if len(dict) == 0: value = np.zeros(Point.counter)
+    The accumulator is [None] while it is still the integer 0 ([0 + array] is the array).  Only the EMPTY
+    combination still looks at the class counter: its null vector has [m] = the CURRENT number of leaf
+    points coordinates (documented in Props/C02: finding F-C02b). *)
+Fixpoint point_sum (st : est) (acc : option (list Q)) (d : pdict) : res (option (list Q)) :=
   match d with
   | [] => Ok acc
   | (k, w) :: d' =>
       match leafP st k with
       | Raise e => Raise e
-      | Ok v => match np_iadd acc (vscale w v) with
-                | Raise e => Raise e
-                | Ok acc' => point_sum st acc' d'
+      | Ok v => match acc with
+                | None => point_sum st (Some (vscale w v)) d'
+                | Some a => match np_add a (vscale w v) with
+                            | Raise e => Raise e
+                            | Ok a' => point_sum st (Some a') d'
+                            end
                 end
       end
   end.
 Definition point_compute (m : nat) (st : est) (d : pdict) : res (list Q) :=
-  point_sum st (repeat 0 m) d.
+  match point_sum st None d with
+  | Raise e => Raise e
+  | Ok (Some v) => Ok v
+  | Ok None => Ok (repeat 0 m)              (* reached exactly when d = [] *)
+  end.
 
 (** ** Expression.eval on a derived expression: three kinds of keys *)
 Definition key_val (st : est) (k : ekey) : res Q :=
